@@ -475,6 +475,41 @@ fn check_record(hd: &HeaderDesc, header: &vcf::Header, rd: &RecDesc, out: &mut C
                     out.violation(format!("panic:{}", p.sig), format!("an inherent lazy accessor panicked: {}\n{ctxs}", p.message));
                 }
                 out.count("lazy_records_read_through_every_accessor", 1);
+                // the lazy record is a record too: writing it and parsing the text back must give it again
+                let rew = guard::catch(|| {
+                    let mut w = vcf::io::Writer::new(Vec::new());
+                    w.write_record(header, rec).map(|_| w.into_inner())
+                });
+                match rew {
+                    Err(p) => out.violation(format!("panic:{}", p.sig), format!("write_record(lazy record) panicked: {}\n{ctxs}", p.message)),
+                    Ok(Err(e)) => out.count(&format!("lazy_rewrite_rejected[{}]", io_err_class(&e)), 1),
+                    Ok(Ok(line2)) => {
+                        out.count("lazy_records_rewritten", 1);
+                        if line2 != line {
+                            out.count("lazy_rewrites_differing_bytewise", 1);
+                            let c3 = format!("line: {}\nrewritten from the lazy record: {}\nfileformat {}.{}", lossy(&line), lossy(&line2), ff.0, ff.1);
+                            let again = guard::catch(|| {
+                                let mut r = vcf::io::Reader::new(&line2[..]);
+                                let mut b = vcf::variant::RecordBuf::default();
+                                r.read_record_buf(header, &mut b).map(|_| b)
+                            });
+                            match again {
+                                Err(p) => out.violation(format!("panic:{}", p.sig), format!("read_record_buf panicked: {}\n{c3}", p.message)),
+                                Ok(Err(e)) => {
+                                    let cls = io_err_class(&e);
+                                    if eager_err.as_deref() != Some(cls.as_str()) {
+                                        out.violation(format!("lazy-rewrite-unreadable:{cls}"), format!("{e:?}\n{c3}"));
+                                    }
+                                }
+                                Ok(Ok(b)) => {
+                                    for d in diff_records(&v, &canon(rec_desc_of_buf(&b)), &Tol::TEXT) {
+                                        out.violation(format!("lazy-rewrite-roundtrip-ne:{}:{}", d.column, d.class), format!("{} {}: {}\n{c3}", d.column, d.key, d.detail));
+                                    }
+                                }
+                            }
+                        }
+                    }
+                }
             }
         }
         // spans
